@@ -62,7 +62,7 @@ fn build_base(seed: u64, i: usize) -> Base {
     let mut r_plan = base.sub("plan");
     let mut knobs = Knobs::random(&mut r_proj);
     knobs.dup_params = false;
-    let shape = ProjectShape { max_files: 3, max_defs: 5, with_main: true, pragma_always: true };
+    let shape = ProjectShape { max_files: 3, max_defs: 5, with_main: true, pragma_always: true, name_suffix: String::new() };
     let mut project = gen::gen_project(&mut r_proj, &knobs, &shape);
     if r_proj.chance(1, 3) {
         project.named = (0..project.files.len()).collect();
